@@ -88,6 +88,24 @@ func (dc *docCase) parseGuarded(in []byte) (pj *simdjson.ParsedJson, perr error,
 	return
 }
 
+// traversable is the title clause of C05 for results the parser itself returned: the structural walks and
+// MarshalJSON must not only terminate without panic (traverseAll) but also get through the document.
+func traversable(r *Run, pj *simdjson.ParsedJson, what string) bool {
+	if _, err := WalkInto(pj); err != nil {
+		r.violate("untraversable", "AdvanceInto-walk", fmt.Sprintf("%s: accepted, but the AdvanceInto walk fails: %v", what, err))
+		return false
+	}
+	if _, err := WalkForEach(pj); err != nil {
+		r.violate("untraversable", "ForEach-walk", fmt.Sprintf("%s: accepted, but the ForEach walk fails: %v", what, err))
+		return false
+	}
+	if _, err := MarshalRoot(pj); err != nil {
+		r.violate("untraversable", "MarshalJSON", fmt.Sprintf("%s: accepted, but MarshalJSON fails: %v", what, err))
+		return false
+	}
+	return true
+}
+
 func (dc *docCase) try(in []byte, kind string) bool {
 	r := dc.r
 	h := hashBytes(in)
@@ -131,7 +149,7 @@ func (dc *docCase) try(in []byte, kind string) bool {
 		}
 		if o.ok {
 			dc.accepted++
-			if !traverseAll(r, o.pj, what) {
+			if !traverseAll(r, o.pj, what) || !traversable(r, o.pj, what) {
 				r.Res.Inputs["doc"] = b64(in)
 				return false
 			}
@@ -162,7 +180,7 @@ func (dc *docCase) try(in []byte, kind string) bool {
 		return true
 	}
 	dc.accepted++
-	if !traverseAll(r, pj, what) {
+	if !traverseAll(r, pj, what) || !traversable(r, pj, what) {
 		r.Res.Inputs["doc"] = b64(in)
 		return false
 	}
